@@ -735,9 +735,9 @@ WITNESSES = [
     (None, "mcm", 'import io\ndef open(p):\n    return io.StringIO("data")\ndef g():\n    x = open("p")\n    return x\nprint(g().read())\n', True),
     (None, "mcm", 'import io\ndef open(p):\n    return io.StringIO("data")\nx = open("p"); c = 2\nprint(x.read(), c)\n', True),
     (None, "mcm", 'import io\ndef open(p):\n    return io.StringIO("data")\ndef g(c):\n    x = open("p")\n    if c:\n        return x\n'
-                        '    x.close()\n    return None\nprint(g(1).read())\n', True),   # F02abs-2, repaired 2ee0610
+                        '    x.close()\n    return None\nprint(g(1).read())\n', True),   # F02abs-2, repaired 7bedbf5
     (None, "mcm", 'import io\ndef open(p):\n    return io.StringIO(p)\nx = open("a")\nd = x.read()\nx = open("b")\ne = x.read()\nx.close()\n'
-                        'print(d, e, x.closed)\n', True),   # F02abs-1, repaired 54a5b4a
+                        'print(d, e, x.closed)\n', True),   # F02abs-1, repaired e19a6bf
 ]
 
 
